@@ -3,6 +3,7 @@ package cachesim
 import (
 	"fmt"
 	"sort"
+	"sync"
 	"sync/atomic"
 	"time"
 
@@ -101,6 +102,8 @@ type Engine struct {
 	keyHash    []uint64
 	keyConf    []uint64
 	pendingNew map[uint64]int // buffered new items per key hash (probes only)
+
+	joinWG *sync.WaitGroup
 
 	// requests from the epilogue task to the scheduler
 	reqAdvance int64
@@ -267,6 +270,17 @@ func cbReject(it *ristretto.Item[*Val]) {
 // ---- hooks ----
 
 func (e *Engine) hooks() *ristretto.VerifHooks {
+	if e.plan.Flags.Race {
+		// race flavour: no observers that touch engine state from several tasks
+		return &ristretto.VerifHooks{
+			Yield:     core.Yield,
+			TaskStart: func(kind int, obj ristretto.VerifReadier) { core.TaskStart(kind, obj) },
+			TaskEnd:   core.TaskEnd,
+			Idle:      core.Idle,
+			RangePick: hookRangePick,
+			Stripe:    hookStripe,
+		}
+	}
 	return &ristretto.VerifHooks{
 		Yield:     core.Yield,
 		Event:     hookEvent,
@@ -440,7 +454,7 @@ func NewEngine() *Engine {
 }
 
 func (e *Engine) reset(plan *Plan, dec *core.Decider) {
-	for i := int32(0); i < e.nvals; i++ {
+	for i := int32(0); i < atomic.LoadInt32(&e.nvals); i++ {
 		e.vals[i] = nil
 	}
 	vals, evs := e.vals, e.evs
@@ -460,6 +474,9 @@ func (e *Engine) Run(plan *Plan, dec *core.Decider) *RunResult {
 	e.sim = sim
 	core.S = sim
 	sim.YieldFilter = e.onYield
+	if plan.Flags.Race {
+		sim.YieldFilter = raceYieldFilter
+	}
 	e.picker = core.NewPicker(plan.Sim.Sched, dec)
 
 	if plan.Cfg.ClockOffset > 0 {
@@ -484,6 +501,7 @@ func (e *Engine) Run(plan *Plan, dec *core.Decider) *RunResult {
 		e.shardPark[h%256] = true
 	}
 	e.epochValid = true
+	e.joinWG = new(sync.WaitGroup)
 	if !core.RaceEnabled {
 		e.pendingNew = map[uint64]int{}
 	}
@@ -491,31 +509,48 @@ func (e *Engine) Run(plan *Plan, dec *core.Decider) *RunResult {
 	for i, prog := range plan.Clients {
 		cl := &client{id: i, prog: prog}
 		e.clients = append(e.clients, cl)
-		cl.task = sim.Spawn(fmt.Sprintf("c%d", i), i, core.KindClient, func() { e.runClient(cl) })
+		e.joinWG.Add(1)
+		cl.task = sim.Spawn(fmt.Sprintf("c%d", i), i, core.KindClient, func() {
+			defer e.joinWG.Done()
+			e.runClient(cl)
+		})
 	}
 	if len(plan.Closer) > 0 {
 		cl := &client{id: 90, prog: plan.Closer, isClo: true}
 		e.closer = cl
+		e.joinWG.Add(1)
 		cl.task = sim.Spawn("closer", 90, core.KindClient, func() {
+			defer e.joinWG.Done()
 			core.Yield(SiteCloserGate, 0)
 			e.runClient(cl)
 		})
 	}
 	sim.Settle()
+	// from here on the scheduler's own hand-offs must not order the tasks'
+	// memory accesses for the race detector
+	sim.SchedRaceOff()
+	defer sim.SchedRaceOn()
 
 	reason := e.schedule(func() bool { return e.clientsDone() }, false)
 	if reason == "" {
 		cl := &client{id: 99, prog: plan.Epilogue, isEpi: true}
 		e.epi = cl
-		cl.task = sim.Spawn("epi", 99, core.KindClient, func() { e.runClient(cl) })
+		cl.task = sim.Spawn("epi", 99, core.KindClient, func() {
+			// a real program joins its workers before it closes the cache
+			e.joinWG.Wait()
+			e.runClient(cl)
+		})
 		sim.Settle()
 		reason = e.schedule(func() bool { return cl.task.State() == core.StDone }, true)
 	}
+	// scheduling is over: the rest runs with the detector listening again
+	// (fmt and friends use sync.Pool, whose ordering must not be ignored)
+	sim.SchedRaceOn()
 	res := &RunResult{Seed: plan.Seed, Profile: plan.Profile, Strategy: plan.Sim.Sched.Strategy}
-	if sim.Panic != nil && reason == "" {
+	if sim.Panicked() && reason == "" {
 		reason = "panic"
 	}
-	res.PanicTxt = sim.PanicTxt
+	res.PanicTxt = sim.PanicText()
 	if reason == "" {
 		// normal end: every goroutine of the cache must be gone (C15)
 		sim.Settle()
@@ -528,7 +563,9 @@ func (e *Engine) Run(plan *Plan, dec *core.Decider) *RunResult {
 	desc := ""
 	if reason != "" {
 		desc = e.describeTasks()
-		e.checkStrandedWaiters()
+		if !plan.Flags.Race {
+			e.checkStrandedWaiters()
+		}
 	}
 	if reason != "" {
 		res.LeftTasks = sim.KillAll()
@@ -545,7 +582,7 @@ func (e *Engine) Run(plan *Plan, dec *core.Decider) *RunResult {
 	ristretto.VerifInstall(nil)
 	core.S = nil
 
-	if reason == "" || reason == "panic" {
+	if (reason == "" || reason == "panic") && !plan.Flags.Race {
 		e.checkHistory()
 	}
 	if reason == "deadlock" || reason == "stepcap" || reason == "panic" || reason == "quiesce-stuck" {
@@ -558,7 +595,7 @@ func (e *Engine) Run(plan *Plan, dec *core.Decider) *RunResult {
 	res.Decisions = len(dec.Tape)
 	res.Tape = dec.Tape
 	res.Probes = curProbes
-	res.Events = int(e.nevs)
+	res.Events = int(atomic.LoadInt32(&e.nevs))
 	res.Diverged = dec.Diverged
 	if e.ovf {
 		res.Abort = "event-overflow"
@@ -668,7 +705,7 @@ func (e *Engine) schedule(done func() bool, fair bool) string {
 		if done() {
 			return ""
 		}
-		if e.sim.Panic != nil {
+		if e.sim.Panicked() {
 			return "panic"
 		}
 		if e.dec.Diverged != "" {
@@ -806,7 +843,7 @@ func (e *Engine) quiesce() string {
 	defer func() { e.pausing = false }()
 	budget := 6000
 	for {
-		if e.sim.Panic != nil {
+		if e.sim.Panicked() {
 			return "panic"
 		}
 		runnable := e.eligible(e.sim.Runnable())
@@ -879,9 +916,73 @@ func (e *Engine) serveEpilogue() string {
 // ---- client side ----
 
 func (e *Engine) runClient(cl *client) {
+	if e.plan.Flags.Race {
+		for pc := 0; pc < len(cl.prog); pc++ {
+			core.Yield(SiteOpBoundary, 0)
+			e.raceOp(cl, cl.prog[pc])
+		}
+		return
+	}
 	for cl.pc = 0; cl.pc < len(cl.prog); cl.pc++ {
 		core.Yield(SiteOpBoundary, 0)
 		e.runOp(cl, cl.pc, cl.prog[cl.pc])
+	}
+}
+
+// raceYieldFilter is the yield filter of the race flavour: it reads only data
+// that is immutable during the run.
+//
+//go:norace
+func raceYieldFilter(site int, key uint64) bool {
+	e := E
+	switch site {
+	case ristrettoSiteIterShard, ristrettoSiteClearShard:
+		return e.shardPark[key%256]
+	}
+	return true
+}
+
+// raceOp is the client side of the race flavour (C08): it calls the public
+// API and keeps no shared bookkeeping of its own, so that every report of the
+// race detector is about ristretto's code.
+func (e *Engine) raceOp(cl *client, op Op) {
+	switch op.K {
+	case OpGet:
+		e.api.Get(op.Key)
+	case OpSet, OpSetRoom:
+		v := e.newVal(op.Key, op, cl.id)
+		e.api.Set(op.Key, v, op.Cost, time.Duration(op.TTL))
+	case OpDel:
+		e.api.Del(op.Key)
+	case OpGetTTL:
+		e.api.GetTTL(op.Key)
+	case OpIter:
+		n := int64(0)
+		e.api.IterValues(func(v *Val) bool { n++; return op.Arg >= 0 && n > op.Arg })
+	case OpWait:
+		e.api.Wait()
+	case OpClear:
+		e.api.Clear()
+	case OpUpdateMaxCost:
+		e.api.UpdateMaxCost(e.api.MaxCost() + op.Arg)
+	case OpMaxCost:
+		e.api.MaxCost()
+	case OpRemaining:
+		e.api.RemainingCost()
+	case OpMetrics:
+		if m := e.api.Metrics(); m != nil {
+			_ = m.Hits() + m.Misses() + m.KeysAdded() + m.KeysUpdated() + m.KeysEvicted() + m.CostAdded() + m.CostEvicted() +
+				m.SetsDropped() + m.SetsRejected() + m.GetsDropped() + m.GetsKept()
+			_ = m.Ratio()
+			_ = m.String()
+			_ = m.LifeExpectancySeconds()
+		}
+	case OpYield:
+		for i := int64(0); i < op.Arg; i++ {
+			core.Yield(SiteHarnessYield, 0)
+		}
+	case OpClose:
+		e.api.Close()
 	}
 }
 
@@ -1126,6 +1227,21 @@ func (e *Engine) checkStrandedWaiters() {
 	n := int(e.nevs)
 	if n > maxEvs {
 		n = maxEvs
+	}
+	// the epilogue task is alone: if it cannot complete an operation it
+	// invoked after one of its own Clears returned, the cleared cache does not
+	// serve as a fresh one would
+	if e.epi != nil && e.epi.inOp && e.epi.task.State() != core.StDone && !e.closed {
+		var lastClearRet uint64
+		for i := 0; i < n; i++ {
+			ev := &e.evs[i]
+			if ev.Kind == EvReturn && ev.Op == OpClear && int(ev.Task) == e.epi.id {
+				lastClearRet = ev.Seq
+			}
+		}
+		if lastClearRet != 0 {
+			e.violate("C15", "not-serving-after-clear", fmt.Sprintf("after Clear returned at #%d (no other caller active) the %s issued next never completed", lastClearRet, OpNames[e.epi.cur.K]), lastClearRet)
+		}
 	}
 	for _, cl := range e.clients {
 		if !(cl.inOp && cl.cur.K == OpWait && cl.task.State() == core.StRunning) {
